@@ -9,8 +9,25 @@ NEG, POS = -100000, 100000
 
 
 # ------------------------------------------------------------------ digitize2tree
-def run_digitize(sorted_bins, asc):
-    """sorted_bins: strictly increasing list of floats exact in float32. Returns the event list."""
+def _f32down(v):
+    f = numpy.float32(v)
+    if float(f) >= v:
+        f = numpy.nextafter(f, numpy.float32(-numpy.inf))
+    return float(f)
+
+
+def _f32up(v):
+    f = numpy.float32(v)
+    if float(f) <= v:
+        f = numpy.nextafter(f, numpy.float32(numpy.inf))
+    return float(f)
+
+
+def run_digitize(sorted_bins, asc, exact=True):
+    """sorted_bins: strictly increasing list of floats. exact=True: the edges are exact in float32 and are queried
+    themselves; exact=False: arbitrary float64 edges, queried at their float32 neighbours (scikit-learn's predict casts
+    x to float32: the last float32 below an edge is in the edge's own interval (.., edge], the first one above is in
+    the next interval).  Returns the event list."""
     from mlinsights.mltree import tree_digitize as TD
     n = len(sorted_bins)
     bins = numpy.array(sorted_bins if asc else sorted_bins[::-1], dtype=numpy.float64)
@@ -32,13 +49,13 @@ def run_digitize(sorted_bins, asc):
     for code in range(1, 2 * n + 2):
         b = code // 2
         if code % 2 == 0:
-            q.append(sorted_bins[b - 1])
+            q.append(sorted_bins[b - 1] if exact else _f32down(sorted_bins[b - 1]))
         elif b == 0:
-            q.append(sorted_bins[0] - 1.0)
+            q.append(float(numpy.float32(sorted_bins[0] - 1.0)))
         elif b == n:
-            q.append(sorted_bins[-1] + 1.0)
+            q.append(float(numpy.float32(sorted_bins[-1] + 1.0)) if exact or code % 4 == 1 else _f32up(sorted_bins[-1]))
         else:
-            q.append((sorted_bins[b - 1] + sorted_bins[b]) / 2)
+            q.append((sorted_bins[b - 1] + sorted_bins[b]) / 2 if exact else _f32up(sorted_bins[b - 1]))
     x = numpy.array(q, dtype=numpy.float64)
     pred = tree.predict(x.reshape((-1, 1)))
     vals = tree.tree_.value[:, 0, 0]
@@ -89,12 +106,14 @@ def digitize_part(ctx, thorough):
     for k in range(500 if thorough else 40):
         n = rng.choice([1, 2, 3, rng.randint(4, 40), rng.randint(13, 90 if thorough else 60)])
         vals = sorted(rng.sample(range(-400, 400), n))
-        sb = [v / 8.0 for v in vals]
+        exact = rng.random() < 0.5
+        # exact: dyadic edges; otherwise edges that float32 cannot hold (tenths, thirds plus noise), >= 1/8 apart
+        sb = [v / 8.0 for v in vals] if exact else [v / 8.0 + rng.choice([0.1, 1.0 / 3, 0.01]) * rng.random() / 8 for v in vals]
         asc = rng.random() < 0.5 or n == 1
-        sig = "asc" if asc else "desc"
-        ctx.case(("digc", n, asc, tuple(vals)), nontrivial=n >= 2)
+        sig = ("asc" if asc else "desc") + ("" if exact else " float64 edges")
+        ctx.case(("digc", n, asc, tuple(vals), exact), nontrivial=n >= 2)
         try:
-            ev = run_digitize(sb, asc)
+            ev = run_digitize(sb, asc, exact)
         except Exception as e:
             ctx.violation("CallSucceeds", DSITE, sig, repr(e), case=dict(bins=sb, asc=asc))
             continue
@@ -297,7 +316,8 @@ def run(ctx):
                 "(%d trees) realised as a real scikit-learn Tree; fitted regressors/classifiers (depth-first and "
                 "best-first numbering, one-node trees) validated as traces. non-trivial = n>=2 bins / >=3 nodes."
                 % (nd, nt))
-    ctx.assumptions += ["bin edges and query points are dyadic (exact in float32, which scikit-learn's predict casts to)",
+    ctx.assumptions += ["query points are exact in float32 (scikit-learn's predict casts x to float32): dyadic edges are queried themselves, "
+                        "arbitrary float64 edges at their two float32 neighbours",
                         "integer training data, so thresholds are half-integers and doubled coordinates are exact"]
 
 
